@@ -15,7 +15,7 @@ from .. import ratecase as R
 
 PROPERTY = "C12"
 LEVEL = "exploration"
-TECHNIQUE = "property-based testing (Hypothesis): expression trees derived from the translator's grammar rendered to Fortran, translated by KROMEReaction.rateexpr(), both evaluated (independent Fortran-semantics evaluator vs. C interpreter) at random valuations; bundled KROME networks replayed as corpus"
+TECHNIQUE = "property-based testing (Hypothesis): expression trees derived from the translator's grammar rendered to Fortran, translated by KROMEReaction.rateexpr(), both evaluated (independent Fortran-semantics evaluator vs. C interpreter) at random valuations; @var definitions over KROME's shortcuts rendered into EvalRates and evaluated there; bundled KROME networks replayed as corpus"
 RULE = (
     "Expression trees (depth <= 4 quick / 6 thorough) over the translator's grammar: d/e exponents, signed literals, "
     "nested parentheses, chains a**b**c, a/b/c, a-b-c, single-argument intrinsics (exp log log10 sqrt dexp abs), "
@@ -26,7 +26,10 @@ RULE = (
     "minus below **, left-associative * / + -) at 5 random positive valuations; every n(idx_X) must become "
     "y[IDX_<alias of X>]. Near-misses (unary minus on a variable, d+ exponents, upper-case D, unbalanced "
     "parentheses) must either raise or keep the value. All rate columns of the bundled primordial.krome and "
-    "deuterium.krome are replayed through my own Fortran parser. Non-trivial = tree has ** with a non-literal "
+    "deuterium.krome are replayed through my own Fortran parser. Intrinsics also in upper case and by their double-precision names; a "
+    "family <ident><sign><literal>**<x> the unchanged tree reads correctly; one case in twelve defines a user variable by an @var line "
+    "(expression over Tgas, T32, invT, Te, invTe, lnTe, sqrTgas), uses it in a rate and compares k[0] of the rendered EvalRates "
+    "(C interpreter; text it cannot read is a violation) with the Fortran value at three temperatures. Non-trivial = tree has ** with a non-literal "
     "operand, >=2 chained same-level operators, a d exponent, or n(idx_)."
 )
 ASSUMPTIONS = [
